@@ -79,19 +79,34 @@ def run(ctx, chk):
         ipaths, _ = an.analyse(cfg, ib)
         ir = [p for p in ipaths if p.end == "return"]
         rows = []
+        row_sel = None      # (selector of the codon component, selector of the amino component) of a table row
         if len(ir) == 1 and not ir[0].guards and ir[0].ret[0] == "array":
             for el in ir[0].ret[1]:
-                okel = el[0] == "tuple" and len(el[1]) == 2 and el[1][1][0] == "agg" and el[1][1][1] == am.ty
-                src = None
-                if okel:
-                    t = el[1][0]
-                    if an.is_call(t, re.compile(r"^CONV<&seq::slice::SeqSlice<(codec::iupac::Iupac|A)> -> seq::Seq<(codec::iupac::Iupac|B)>>$")):
+                # a row is a pair - a tuple or a two-field struct - of a Seq<Iupac> made from an iupac! literal and an amino acid
+                comps = None
+                if el[0] == "tuple" and len(el[1]) == 2:
+                    comps = [(0, el[1][0]), (1, el[1][1])]
+                elif el[0] == "agg" and len(el[4]) == 2 and bio.adts.get(el[1]) and bio.adts[el[1]]["kind"] == "struct":
+                    fl = bio.adts[el[1]]["variants"][0]["fields"]
+                    comps = [(fl[0]["name"], el[4][0]), (fl[1]["name"], el[4][1])]
+                src = aa_el = None
+                sel = [None, None]
+                for nm, t in comps or []:
+                    if t[0] == "agg" and t[1] == am.ty:
+                        aa_el, sel[1] = t, nm
+                    elif an.is_call(t, re.compile(r"^CONV<&seq::slice::SeqSlice<(codec::iupac::Iupac|A)> -> seq::Seq<(codec::iupac::Iupac|B)>>$")):
                         a = t[2][0]
                         if a[0] == "seqview" and a[1][0] == "static":
-                            src = a[1][1]
-                if src is None:
-                    chk.cannot("T-iupac-rows", init_fn, "row is not (iupac!(..).into(), Amino::X): " + show(el)[:120], ib["span"])
+                            src, sel[0] = a[1][1], nm
+                if src is None or aa_el is None:
+                    chk.cannot("T-iupac-rows", init_fn, "row is not a pair (iupac!(..).into(), Amino::X): " + show(el)[:120], ib["span"])
                     continue
+                if row_sel is None:
+                    row_sel = tuple(sel)
+                elif row_sel != tuple(sel):
+                    chk.cannot("T-iupac-rows", init_fn, "rows of different shapes", ib["span"])
+                    continue
+                el = ("tuple", (None, aa_el))
                 syms, args = static_symbols(cfg, src, code_sym, iu.bits)
                 if syms is None or None in syms:
                     chk.cannot("T-iupac-rows", init_fn, "static %s not evaluated to IUPAC symbols" % src, ib["span"])
@@ -104,7 +119,7 @@ def run(ctx, chk):
         if not rows:
             continue
         # ---- search shape (G20) ----
-        search_ok = check_search(chk, cfg, ta, paths, table_term)
+        search_ok = check_search(chk, cfg, ta, paths, table_term, row_sel or (0, 1))
         # ---- semantics over all codons ----
         if search_ok:
             def first_match(codon):
@@ -179,7 +194,7 @@ def run(ctx, chk):
                                    {"Some(Some)": "Ok(clone)", "Some(None)": "Err(AmbiguousCodon)", "None": "Err(AmbiguousCodon)"})
 
 
-def check_search(chk, cfg, b, paths, table_term):
+def check_search(chk, cfg, b, paths, table_term, row_sel=(0, 1)):
     what = "Standard::try_to_amino"
     L3 = cmp(L(P(2)), "Eq", c(3))
     into_seq = re.compile(r"^CONV<&seq::slice::SeqSlice<(codec::iupac::Iupac|A)> -> seq::Seq<(codec::iupac::Iupac|B)>>$")
@@ -194,8 +209,8 @@ def check_search(chk, cfg, b, paths, table_term):
     good = len(conts) == 1 and len(oks) == 1 and len(ambs) == 1 and not other
     if good:
         item, nxt = xlate.loop_item(oks[0])
-        row_codon, row_amino = F(item, 0), F(item, 1)
-        contains = re.compile(r"^codec::iupac::<impl seq::Seq<codec::iupac::Iupac>>::contains$")
+        row_codon, row_amino = F(item, row_sel[0]), F(item, row_sel[1])
+        contains = re.compile(r"^seq::Seq::<codec::iupac::Iupac>::contains$")
         def cg(p):
             return [g for g in p.guards if g[0] == "bool" and an.is_call(g[1], contains)]
         g_ok, g_ct = cg(oks[0]), cg(conts[0])
